@@ -559,11 +559,11 @@ def r8_order(report, repo):
 
 
 def run(report, repo):
-  r1_validate(report, repo)
-  r2_validated_value(report, repo)
-  r3_stored_value(report, repo)
-  r4_rejections(report, repo)
-  r5_finalize_measurements(report, repo)
-  r6_conditional_validators(report, repo)
-  r7_measurements_pass(report, repo)
-  r8_order(report, repo)
+  report.guard(r1_validate, report, repo)
+  report.guard(r2_validated_value, report, repo)
+  report.guard(r3_stored_value, report, repo)
+  report.guard(r4_rejections, report, repo)
+  report.guard(r5_finalize_measurements, report, repo)
+  report.guard(r6_conditional_validators, report, repo)
+  report.guard(r7_measurements_pass, report, repo)
+  report.guard(r8_order, report, repo)
